@@ -806,6 +806,45 @@ func c13Reuse(sc *C13Sc, env *Env) *Violation {
 			return viol("reuse-error-value", "round %d: Run with a live context ended in a different state than repeated Step:%s", i, world.DiffStates(want, st, true))
 		}
 	}
+	// fork: a device callback copies the CPU value while Run is in progress and gives the copy a memory
+	// and port device of its own (a snapshot / a second machine started from this one); later the host
+	// Runs the copy: that Run must come back.
+	{
+		m.CPU.States = world.Regs{PC: 0x0200, SP: 0xf000}.States()
+		var snap *z80.CPU
+		at := m.Bus.Tick + 20 + uint64(sc.IOSeed%200)
+		m.Hook = func(mm *world.Machine, _ world.Acc) {
+			if snap == nil && mm.Bus.Tick >= at {
+				c := *mm.CPU
+				nb := mm.Bus.Clone()
+				c.Memory, c.IO = nb.Memory(), nb.IO()
+				snap = &c
+			}
+		}
+		ctx, cancel := mk()
+		err := m.CPU.Run(ctx)
+		cancel()
+		m.Hook = nil
+		if err != nil || snap == nil {
+			return viol("reuse-error-value", "fork pass: Run with a live context returned %v (snapshot taken: %t)", err, snap != nil)
+		}
+		// (the copy's registers are those of the middle of an instruction: what it executes is its own
+		// business - only that Run comes back, by itself or by its deadline, is demanded)
+		ch := make(chan error, 1)
+		ctx2, cancel2 := context.WithTimeout(context.Background(), 50*time.Millisecond)
+		go func() { ch <- snap.Run(ctx2) }()
+		select {
+		case e := <-ch:
+			cancel2()
+			if e != nil && !errors.Is(e, context.DeadlineExceeded) && !errors.Is(e, z80.ErrBreakPoint) {
+				return viol("reuse-error-value", "fork pass: Run on a copy of the CPU value taken by a device callback during Run returned %v", e)
+			}
+		case <-time.After(40 * time.Second):
+			cancel2()
+			return viol("bounded-liveness", "fork pass: a copy of the CPU value taken by a device callback during Run (own memory and ports) was Run afterwards with a 50 ms deadline: no return within 40 s of real time")
+		}
+		env.Fire("run-on-a-copy-taken-during-run")
+	}
 	env.FireN("runs-on-a-reused-cpu(late-cancel)", uint64(2*sc.Repeats))
 	env.Class("reuse/%s", sc.Parent)
 	env.NonTrivial = true
